@@ -177,6 +177,15 @@ class Mod:
                 self.consts[st.targets[0].id] = st.value
             elif isinstance(st, ast.AnnAssign) and isinstance(st.target, ast.Name) and st.value is not None:
                 self.consts[st.target.id] = st.value          # PLAYER_1: str = "Player 1"
+            elif isinstance(st, ast.Assign) and len(st.targets) == 1 and isinstance(st.targets[0], (ast.Tuple, ast.List)) and isinstance(st.value, (ast.Tuple, ast.List)) \
+                    and len(st.targets[0].elts) == len(st.value.elts) and all(isinstance(t, ast.Name) for t in st.targets[0].elts) \
+                    and not any(isinstance(v, ast.Starred) for v in st.value.elts):
+                for t, v in zip(st.targets[0].elts, st.value.elts):          # LEFT, BOTH, RIGHT, DOWN = 0, 1, 2, 3
+                    self.consts[t.id] = v
+            elif isinstance(st, ast.Assign) and len(st.targets) == 1 and isinstance(st.targets[0], (ast.Tuple, ast.List)) and all(isinstance(t, ast.Name) for t in st.targets[0].elts) \
+                    and isinstance(st.value, ast.Call) and isinstance(st.value.func, ast.Name) and st.value.func.id == "range":
+                for i, t in enumerate(st.targets[0].elts):                    # LEFT, BOTH, RIGHT, DOWN = range(4)
+                    self.consts[t.id] = ast.copy_location(ast.Subscript(value=st.value, slice=ast.Constant(value=i), ctx=ast.Load()), st)
             elif isinstance(st, ast.Assign):
                 # a = b = 0 chains
                 for t in st.targets:
@@ -190,6 +199,137 @@ class Mod:
                     self.imports[al.asname or al.name] = (al.name, None)
 
 
+def _desugar_properties(mods):
+    """A field that became a property with a backing field:
+            @property
+            def p(self): return self._p
+            @p.setter
+            def p(self, v): self._p = E(v)          (one assignment)
+    is a plain field whose every store goes through E: `x.p = e` becomes `x.p = E(e)`, `_p` becomes `p`, the two definitions go.
+    Done only when that is exact: trivial getter, one-assignment setter, no deleter, no augmented assignment to the field, and
+    the name `p` stored as an attribute only on objects of that class family (through `self` inside the family)."""
+    import copy as _copy
+    classes = {}
+    for m in mods.values():
+        for st in m.tree.body:
+            if isinstance(st, ast.ClassDef):
+                classes[st.name] = (m, st)
+
+    def family(name):
+        out = {name}
+        changed = True
+        while changed:
+            changed = False
+            for n, (_, c) in classes.items():
+                bs = {b.id for b in c.bases if isinstance(b, ast.Name)}
+                if n not in out and bs & out:
+                    out.add(n)
+                    changed = True
+                if n in out:
+                    for b in bs:
+                        if b in classes and b not in out:
+                            out.add(b)
+                            changed = True
+        return out
+    done = False
+    for cname, (m, c) in list(classes.items()):
+        getters = {s2.name: s2 for s2 in c.body if isinstance(s2, ast.FunctionDef) and any(isinstance(d, ast.Name) and d.id == "property" for d in s2.decorator_list)}
+        for pname, g in getters.items():
+            setters = [s2 for s2 in c.body if isinstance(s2, ast.FunctionDef) and s2.name == pname and any(
+                isinstance(d, ast.Attribute) and d.attr == "setter" and isinstance(d.value, ast.Name) and d.value.id == pname for d in s2.decorator_list)]
+            others = [s2 for s2 in c.body if isinstance(s2, ast.FunctionDef) and s2.name == pname and s2 is not g and s2 not in setters]
+            if len(setters) != 1 or others:
+                continue
+            gb = [b for b in g.body if not (isinstance(b, ast.Expr) and isinstance(b.value, ast.Constant))]
+            if not (len(gb) == 1 and isinstance(gb[0], ast.Return) and isinstance(gb[0].value, ast.Attribute) and isinstance(gb[0].value.value, ast.Name)
+                    and gb[0].value.value.id == g.args.args[0].arg):
+                continue
+            back = gb[0].value.attr
+            st_ = setters[0]
+            sb = [b for b in st_.body if not (isinstance(b, ast.Expr) and isinstance(b.value, ast.Constant))]
+            if len(st_.args.args) != 2:
+                continue
+            me, v = st_.args.args[0].arg, st_.args.args[1].arg
+            # local aliases in front of the assignment (`as_named = self.transition_type`) are written into it
+            aliases = {}
+            while len(sb) > 1 and isinstance(sb[0], ast.Assign) and len(sb[0].targets) == 1 and isinstance(sb[0].targets[0], ast.Name) \
+                    and isinstance(sb[0].value, (ast.Attribute, ast.Name, ast.Constant)) and sb[0].targets[0].id not in (me, v) \
+                    and not any(isinstance(n, ast.Name) and n.id == sb[0].targets[0].id and isinstance(n.ctx, ast.Store) for b in sb[1:] for n in ast.walk(b)):
+                aliases[sb[0].targets[0].id] = sb[0].value
+                sb = sb[1:]
+            if not (len(sb) == 1 and isinstance(sb[0], ast.Assign) and len(sb[0].targets) == 1 and isinstance(sb[0].targets[0], ast.Attribute)
+                    and isinstance(sb[0].targets[0].value, ast.Name) and sb[0].targets[0].value.id == me and sb[0].targets[0].attr == back):
+                continue
+            E = sb[0].value
+            if aliases:
+                class AL(ast.NodeTransformer):
+                    def visit_Name(self, x):
+                        return _copy.deepcopy(aliases[x.id]) if (isinstance(x.ctx, ast.Load) and x.id in aliases) else x
+                E = AL().visit(_copy.deepcopy(E))
+            uses_me = any(isinstance(n, ast.Name) and n.id == me for n in ast.walk(E))
+            if any(isinstance(n, (ast.Lambda, ast.Yield, ast.Await, ast.NamedExpr)) for n in ast.walk(E)):
+                continue
+            fam = family(cname)
+            ok = True
+            for m2 in mods.values():
+                for cls2 in [None] + [x for x in m2.tree.body if isinstance(x, ast.ClassDef)]:
+                    scope = cls2 if cls2 is not None else m2.tree
+                    for n in ast.walk(scope):
+                        if isinstance(n, ast.AugAssign) and isinstance(n.target, ast.Attribute) and n.target.attr in (pname, back):
+                            ok = False
+                        if isinstance(n, ast.Attribute) and n.attr == pname and isinstance(n.ctx, (ast.Store, ast.Del)):
+                            if isinstance(n.ctx, ast.Del):
+                                ok = False
+                            if cls2 is not None and cls2.name not in fam and isinstance(n.value, ast.Name) and n.value.id == "self":
+                                ok = False                # another class has a field of that name
+                        if cls2 is not None and isinstance(n, ast.FunctionDef) and n.name in (pname, back) and cls2.name != cname:
+                            ok = False
+            # the backing field is not a name of its own anywhere else
+            if any(isinstance(n, ast.Attribute) and n.attr == back and not (isinstance(n.value, ast.Name)) for m2 in mods.values() for n in ast.walk(m2.tree)):
+                ok = False
+            if not ok:
+                continue
+
+            class R(ast.NodeTransformer):
+                def visit_Assign(self, n):
+                    through_setter = len(n.targets) == 1 and isinstance(n.targets[0], ast.Attribute) and n.targets[0].attr == pname
+                    self.generic_visit(n)
+                    if through_setter and uses_me and not isinstance(n.targets[0].value, ast.Name):
+                        return n
+                    if through_setter:
+                        val = n.value
+                        recv = n.targets[0].value
+
+                        class S(ast.NodeTransformer):
+                            def visit_Name(self, x):
+                                if x.id == me and isinstance(x.ctx, ast.Load):
+                                    return ast.copy_location(ast.Name(id=recv.id, ctx=ast.Load()), x)
+                                return val if (x.id == v and isinstance(x.ctx, ast.Load)) else x
+                        uses = [x for x in ast.walk(E) if isinstance(x, ast.Name) and x.id == v and isinstance(x.ctx, ast.Load)]
+                        if len(uses) == 1 or isinstance(val, (ast.Name, ast.Constant)) or (isinstance(val, ast.Attribute) and isinstance(val.value, ast.Name)):
+                            n.value = ast.copy_location(S().visit(_copy.deepcopy(E)), n.value)
+                            for x in ast.walk(n.value):
+                                if not hasattr(x, "lineno"):
+                                    ast.copy_location(x, n)
+                    return n
+
+                def visit_Attribute(self, n):
+                    self.generic_visit(n)
+                    if n.attr == back:
+                        n.attr = pname
+                    return n
+            for m2 in mods.values():
+                R().visit(m2.tree)
+            c.body = [s2 for s2 in c.body if s2 is not g and s2 is not st_]
+            done = True
+    if done:
+        for m in mods.values():
+            ast.fix_missing_locations(m.tree)
+            add_parents(m.tree)
+            m.funcs, m.classes, m.consts, m.imports = {}, {}, {}, {}
+            m._index()
+
+
 def _structural_tuples(mods):
     """Named tuples are tuples.  A maintainer who gives the transition pairs names (`class Move(NamedTuple): action; target`,
     `Branch = namedtuple("Branch", "probability target")`) changes how a pair is *spelled* - `t.target` for `t[1]`,
@@ -198,7 +338,7 @@ def _structural_tuples(mods):
         x.<field>                ->  x[<index>]        for a field name that has ONE index over all named-tuple types, is never
                                                         stored as an attribute (`o.f = ...`) and names no method / class attribute
         NT(a, b) / NT(f=a, g=b)  ->  (a, b)             (missing fields: their defaults; otherwise the call is left alone)
-        NT(*p) / NT._make(p)     ->  tuple(p)
+        NT(*p) / NT._make(p)     ->  p
     Methods defined on a named-tuple class stay methods (`self.f` inside them is rewritten like any other read)."""
     import copy as _copy
     nts = {}          # class name -> (fields, defaults)
@@ -245,6 +385,22 @@ def _structural_tuples(mods):
                         nts[st.targets[0].id] = (fields, {})
     if not nts:
         return
+    # class attributes that name a named-tuple type (`transition_type = Move` in one node class, `= Branch` in another): whatever
+    # object it is read from, `x.transition_type` is one of those types
+    nt_attrs = {}
+    for m in mods.values():
+        for c_ in [x for x in ast.walk(m.tree) if isinstance(x, ast.ClassDef)]:
+            for s2 in c_.body:
+                if isinstance(s2, ast.Assign) and len(s2.targets) == 1 and isinstance(s2.targets[0], ast.Name):
+                    nt_attrs.setdefault(s2.targets[0].id, []).append(isinstance(s2.value, ast.Name) and s2.value.id in nts)
+    nt_attrs = {k for k, v in nt_attrs.items() if all(v)}
+    for m in mods.values():
+        for n in ast.walk(m.tree):
+            if isinstance(n, ast.Attribute) and isinstance(n.ctx, (ast.Store, ast.Del)) and n.attr in nt_attrs:
+                nt_attrs.discard(n.attr)
+
+    def is_nt_type(e):
+        return (isinstance(e, ast.Name) and e.id in nts) or (isinstance(e, ast.Attribute) and e.attr in nt_attrs and isinstance(e.value, ast.Name))
     index = {}
     for fields, _ in nts.values():
         for i, f in enumerate(fields):
@@ -292,14 +448,26 @@ def _structural_tuples(mods):
                 return ast.copy_location(ast.Subscript(value=node.value, slice=ast.Constant(value=fmap[node.attr]), ctx=ast.Load()), node)
             return node
 
+        def visit_IfExp(self, node):
+            self.generic_visit(node)
+            # `t if isinstance(t, NT) else NT(*t)` (already `... else tuple(t)`): the pair as a tuple either way
+            t = node.test
+            if isinstance(t, ast.Call) and isinstance(t.func, ast.Name) and t.func.id == "isinstance" and len(t.args) == 2 and is_nt_type(t.args[1]) \
+                    and isinstance(node.body, ast.Name) and isinstance(t.args[0], ast.Name) and t.args[0].id == node.body.id \
+                    and isinstance(node.orelse, ast.Name) and node.orelse.id == node.body.id:
+                return node.orelse
+            return node
+
         def visit_Call(self, node):
             self.generic_visit(node)
             # NT(*pair) / NT._make(pair): the pair as a tuple
-            if isinstance(node.func, ast.Name) and node.func.id in nts and len(node.args) == 1 and isinstance(node.args[0], ast.Starred) and not node.keywords:
-                return ast.copy_location(ast.Call(func=ast.Name(id="tuple", ctx=ast.Load()), args=[node.args[0].value], keywords=[]), node)
+            # (the pair itself: what the rules read of it - its slots - is the same; that it has the right number of slots is what
+            # the validation in front of every such conversion establishes)
+            if is_nt_type(node.func) and len(node.args) == 1 and isinstance(node.args[0], ast.Starred) and not node.keywords:
+                return node.args[0].value
             if isinstance(node.func, ast.Attribute) and node.func.attr == "_make" and isinstance(node.func.value, ast.Name) and node.func.value.id in nts \
                     and len(node.args) == 1 and not isinstance(node.args[0], ast.Starred) and not node.keywords:
-                return ast.copy_location(ast.Call(func=ast.Name(id="tuple", ctx=ast.Load()), args=[node.args[0]], keywords=[]), node)
+                return node.args[0]
             if isinstance(node.func, ast.Name) and node.func.id in nts and not any(isinstance(a, ast.Starred) for a in node.args) and all(k.arg for k in node.keywords):
                 fields, defaults = nts[node.func.id]
                 vals = dict(zip(fields, node.args))
@@ -407,6 +575,10 @@ class Program:
                 self.mods[m] = Mod(m, p)
             except SyntaxError as e:
                 raise AnalysisError("module %s does not parse: %s" % (m, e))
+        try:
+            _desugar_properties(self.mods)
+        except Exception:
+            pass
         _structural_tuples(self.mods)
         self.funcs = {}
         self.classes = {}
@@ -490,6 +662,41 @@ class Program:
             node3 = _inline_helpers(self, g, public=(f.name == "main" and f.cls is None and not all_options))
         except Exception:
             node3 = None
+        if pro and not (f.name == "main" and f.cls is None):
+            # an option of the pipeline function at its default decides the tests on it
+            try:
+                base_ = node if node is not None else None
+                if base_ is not None:
+                    import builtins as _b
+
+                    def _truth0(t):
+                        if isinstance(t, ast.Constant):
+                            return bool(t.value)
+                        if isinstance(t, ast.UnaryOp) and isinstance(t.op, ast.Not):
+                            v = _truth0(t.operand)
+                            return None if v is None else not v
+                        if isinstance(t, ast.BoolOp):
+                            vs = [_truth0(x) for x in t.values]
+                            if isinstance(t.op, ast.And):
+                                return False if False in vs else (None if None in vs else True)
+                            return True if True in vs else (None if None in vs else False)
+                        if isinstance(t, ast.Compare) and len(t.ops) == 1 and isinstance(t.left, ast.Constant) and isinstance(t.comparators[0], ast.Constant) \
+                                and isinstance(t.ops[0], (ast.Is, ast.IsNot)) and (t.left.value is None or t.comparators[0].value is None):
+                            same = t.left.value is t.comparators[0].value
+                            return same if isinstance(t.ops[0], ast.Is) else not same
+                        return None
+                    base_.body = _prefix_constants(base_.body, _truth0) or [ast.Pass()]
+                    ast.fix_missing_locations(base_)
+                    add_parents(base_)
+                    base_.parent = getattr(f.node, "parent", None)
+                    g = Func(f.mod, f.cls, base_)
+                    node3 = None
+                    try:
+                        node3 = _inline_helpers(self, g, public=False)
+                    except Exception:
+                        node3 = None
+            except Exception:
+                pass
         if node3 is not None:
             node = node3
         if node is not None and f.name == "main" and f.cls is None and f.mod.name in self.CLI_DOCUMENTED and not all_options:
@@ -649,6 +856,11 @@ class Program:
                 if isinstance(fn, ast.Name) and fn.id in ("abs", "round", "int", "float", "len", "min", "max"):
                     return {"abs": abs, "round": round, "int": int, "float": float, "len": len,
                             "min": min, "max": max}[fn.id](*args)
+                if isinstance(fn, ast.Name) and fn.id == "range" and 1 <= len(args) <= 3 and all(isinstance(a, int) and not isinstance(a, bool) for a in args):
+                    r = range(*args)
+                    if len(r) > 64:
+                        raise NotConst("range too long")
+                    return tuple(r)
                 # a module-level helper that is a single `return <expression of its parameters>`
                 if isinstance(fn, ast.Name) and fn.id in mod.funcs and depth < 6:
                     h = mod.funcs[fn.id]
@@ -1149,8 +1361,52 @@ def _fold_static(node):
                     break
             return out
         node.body = fold(node.body) or [ast.Pass()]
+        node.body = _prefix_constants(node.body, truth) or [ast.Pass()]
     ast.fix_missing_locations(node)
     return node
+
+
+def _prefix_constants(body, truth):
+    """Flow-sensitive part: a name assigned a constant keeps it, statement after statement, until something assigns it again;
+    an `if` whose test this decides is replaced by the branch taken (`x = None` ... `if x is None or ...: x = make()`)."""
+    import copy as _c
+
+    def stores(st):
+        return {n.id for n in ast.walk(st) if isinstance(n, ast.Name) and isinstance(n.ctx, (ast.Store, ast.Del))}
+
+    def subst_expr(e, env):
+        class P(ast.NodeTransformer):
+            def visit_Name(self, n):
+                if isinstance(n.ctx, ast.Load) and n.id in env:
+                    return ast.copy_location(_c.deepcopy(env[n.id]), n)
+                return n
+        return P().visit(_c.deepcopy(e))
+
+    def run(block, env):
+        out = []
+        for st in block:
+            if isinstance(st, ast.If):
+                v = truth(subst_expr(st.test, env)) if env else None
+                if v is True:
+                    out.extend(run(st.body, env))
+                    continue
+                if v is False:
+                    out.extend(run(st.orelse, env))
+                    continue
+            if isinstance(st, ast.Assign) and len(st.targets) == 1 and isinstance(st.targets[0], ast.Name) and isinstance(st.value, ast.Constant):
+                env[st.targets[0].id] = st.value
+                out.append(st)
+                continue
+            for n in stores(st):
+                env.pop(n, None)
+            if isinstance(st, (ast.For, ast.While, ast.Try, ast.With, ast.If, ast.FunctionDef, ast.ClassDef)):
+                # what a compound statement leaves behind is not followed
+                pass
+            out.append(st)
+            if isinstance(st, (ast.Return, ast.Raise)):
+                break
+        return out
+    return run(list(body), {})
 
 
 def _cli_defaults(prog, f, node):
